@@ -1,3 +1,4 @@
+import TemplVerif.Generated.Skeletons
 import TemplVerif.Spec.HtmlTok
 import TemplVerif.Model.Attrs
 import TemplVerif.Proofs.Html
@@ -125,5 +126,17 @@ theorem C01_static_ampersand_counterexample :
     Expect.nodesOK ampBody = false ∧ (Denote.run ampBody ampEnv).err = false ∧
     tokenize (Denote.run ampBody ampEnv).out = [.startTag [112] [] false, .text [60], .endTag [112]] ∧
     Expect.tokens ampBody ampEnv = [.startTag [112] [] false, .text [38, 108, 116, 59], .endTag [112]] := by decide
+
+-- BEGIN transcription pins (written by tools/mkpins.py)
+/-- T1, transcription pins: the control structure and calls (extract/skeleton.go) of the functions whose models
+    were written by hand are the ones the models were transcribed from:
+      runtime.go EscapeString
+      runtime.go RenderAttributes
+    A change of what one of them calls or how it branches breaks this theorem; the check then searches for a
+    failing input and reports either that or `no-failing-input-found`. -/
+theorem C01_transcription_pinned :
+    Generated.skel_runtime_EscapeString = 4683905811979264117 ∧
+    Generated.skel_runtime_RenderAttributes = 16485106523478347716 := by decide
+-- END transcription pins
 
 end TemplVerif.Props.C01
